@@ -159,25 +159,64 @@ func c19r1(c *core.Ctx) {
 		var truncated, prefix, appended bool
 		freeBoth := 0
 		for _, g := range []*core.Func{p.fresh, p.update} {
+			// the accumulation may sit in the function itself or in a helper whose results it uses
+			scope := []*core.Func{g}
 			core.InspectNoLits(g.Body, func(n ast.Node) bool {
-				if rs, ok := n.(*ast.RangeStmt); ok && fieldKeyOf(m, rs.X) == "archetypeData.freeTables" {
-					capAdd, memAdd := false, false
-					ast.Inspect(rs.Body, func(x ast.Node) bool {
-						if as, ok := x.(*ast.AssignStmt); ok && as.Tok == token.ADD_ASSIGN && len(as.Rhs) == 1 && strings.Contains(m.ExprString(as.Rhs[0]), ".cap") {
-							if strings.Contains(normStatsExpr(m, as.Rhs[0]), "MPE") {
-								memAdd = true
-							} else {
-								capAdd = true
-							}
+				if es, ok := n.(*ast.ExprStmt); ok {
+					if call, ok := es.X.(*ast.CallExpr); ok {
+						if k, cal, _ := m.Callee(call); k == core.CallStatic && cal != nil && cal.Sig != nil && cal.Sig.Results().Len() > 0 {
+							return false // results discarded
 						}
-						return true
-					})
-					if capAdd && memAdd {
-						freeBoth++
+					}
+				}
+				if call, ok := n.(*ast.CallExpr); ok {
+					if k, cal, _ := m.Callee(call); k == core.CallStatic && cal != nil && cal.Body != nil && cal != p.fresh && cal != p.update && (cal.Recv == "archetype" || cal.Recv == "") {
+						scope = append(scope, cal)
 					}
 				}
 				return true
 			})
+			found := false
+			for _, h := range scope {
+				core.InspectNoLits(h.Body, func(n ast.Node) bool {
+					if body, ok := loopOverAll(m, n, "archetypeData.freeTables"); ok {
+						capAdd, memAdd := false, false
+						ast.Inspect(body, func(x ast.Node) bool {
+							as, ok := x.(*ast.AssignStmt)
+							if !ok || as.Tok != token.ADD_ASSIGN || len(as.Rhs) != 1 {
+								return true
+							}
+							readsCap, product := false, false
+							ast.Inspect(m.Inline(as.Rhs[0]), func(y ast.Node) bool {
+								switch z := y.(type) {
+								case *ast.SelectorExpr:
+									if fieldKeyOf(m, z) == "table.cap" {
+										readsCap = true
+									}
+								case *ast.BinaryExpr:
+									if z.Op == token.MUL {
+										product = true
+									}
+								}
+								return true
+							})
+							if readsCap && product {
+								memAdd = true
+							} else if readsCap {
+								capAdd = true
+							}
+							return true
+						})
+						if capAdd && memAdd {
+							found = true
+						}
+					}
+					return true
+				})
+			}
+			if found {
+				freeBoth++
+			}
 		}
 		core.InspectNoLits(f.Body, func(n ast.Node) bool {
 			switch x := n.(type) {
@@ -298,41 +337,45 @@ func c19r2(c *core.Ctx) {
 	}
 	// entity figures
 	found := 0
-	core.InspectNoLits(f.Body, func(n ast.Node) bool {
-		cl, ok := n.(*ast.CompositeLit)
-		if !ok || !strings.HasSuffix(m.Info.TypeOf(cl).String(), "stats.Entities") {
-			return true
-		}
-		for _, e := range cl.Elts {
-			kv, ok := e.(*ast.KeyValueExpr)
-			if !ok {
+	// the entity figures are built in the statistics function or in a helper of it: any construction of the entity
+	// statistics in the package counts, whether written as a literal or field by field
+	for _, g := range m.AllFuncs() {
+		for _, cn := range constructionsOf(m, g) {
+			if cn.typ != "Entities" {
 				continue
 			}
-			field := kv.Key.(*ast.Ident).Name
-			subject := "Entities." + field
-			found++
-			call, ok := ast.Unparen(kv.Value).(*ast.CallExpr)
-			if !ok {
-				c.Violation("C19/R2", subject, c.At(kv.Pos()), "not taken from a pool accessor")
-				continue
+			var keys []string
+			for k := range cn.fields {
+				keys = append(keys, k)
 			}
-			k, cal, _ := m.Callee(call)
-			role := ""
-			if k == core.CallStatic {
-				role = poolAccessorRole(m, cal)
-			}
-			if role == field {
-				c.OK("C19/R2", subject, c.At(kv.Pos()), "from pool accessor "+cal.Name+" ("+role+")")
-			} else {
-				name := "?"
-				if cal != nil {
-					name = cal.Name
+			sort.Strings(keys)
+			for _, k := range keys {
+				field := k[strings.LastIndexByte(k, '.')+1:]
+				val := cn.fields[k]
+				subject := "Entities." + field
+				found++
+				call, ok := ast.Unparen(m.Inline(val)).(*ast.CallExpr)
+				if !ok {
+					c.Violation("C19/R2", subject, c.At(val.Pos()), "not taken from a pool accessor")
+					continue
 				}
-				c.Violation("C19/R2", subject, c.At(kv.Pos()), fmt.Sprintf("Entities.%s is taken from %s, whose body computes '%s'", field, name, role))
+				k2, cal, _ := m.Callee(call)
+				role := ""
+				if k2 == core.CallStatic {
+					role = poolAccessorRole(m, cal)
+				}
+				if role == field {
+					c.OK("C19/R2", subject, c.At(val.Pos()), "from pool accessor "+cal.Name+" ("+role+")")
+				} else {
+					name := "?"
+					if cal != nil {
+						name = cal.Name
+					}
+					c.Violation("C19/R2", subject, c.At(val.Pos()), fmt.Sprintf("Entities.%s is taken from %s, whose body computes '%s'", field, name, role))
+				}
 			}
 		}
-		return true
-	})
+	}
 	if found != 4 {
 		c.Violation("C19/R2", "Entities", c.At(f.Pos()), fmt.Sprintf("expected the four entity figures in one literal, found %d", found))
 	}
